@@ -233,4 +233,40 @@ META = {
         "text": "Held on the histories produced: every successful view (fresh or held across later commits and rollbacks) returned exactly the state after its block whenever all diffs above it exist, every rollback restored the previous state and height (also after reopen), and failures were only the no-history error. Open known finding: wrong answers when the history above h has a gap after a rewind-policy change. One defect found by this monitor (held view reading history outside its snapshot) was repaired by a fix: commit.",
         "note": "Trusted: per-height map model and the diff-presence rule used only to label the known finding; view errors (no-history) are never judged; no crash points; fixed-length keys per column.",
     },
+    "C16": {
+        "ready": True,
+        "technique": 'runtime monitoring: seeded hostile operation histories against the real PoolWorker (hook H1), snapshot after every operation, oracle derived from transaction contents',
+        "text": 'Held on the histories produced: after each of ~0.9M executed pool operations (quick tier; inserts with collisions, evictions and dependencies, extraction, block import, preconfirmation success/failure/squeeze-out/stale, TTL, pending expiry; tiny and default limits) no two pooled txs shared a coin, message, created contract or blob, and published TxPoolStats and the accounting fields equalled the sums over pooled txs; no accounting, collision or selection assertion fired.',
+        "note": "Trusted: hook verif.rs (thin calls into the worker's own methods), harness chain and status ports, TransactionBuilder with into_checked_basic and Metadata::new_test. The verification stage (signatures, fees, predicates, service-level TTL timers) is bypassed; Upgrade/Upload txs are not generated; block and preconfirmation environments are always chain-valid; pool panics are judged only by the owning property.",
+    },
+    "C17": {
+        "ready": True,
+        "technique": 'runtime monitoring: seeded hostile operation histories against the real PoolWorker (hook H1), snapshot after every operation, oracle derived from transaction contents',
+        "text": 'Held on the histories produced: after each of ~0.9M executed pool operations the content-derived dependency graph stayed acyclic, diamond-free and within max_txs_chain_count; extraction listed parents first; every non-inclusion removal (collision, eviction, TTL, skip, rollback) took all transitive dependents with it.',
+        "note": "Trusted: hook verif.rs (thin calls into the worker's own methods), harness chain and status ports, TransactionBuilder with into_checked_basic and Metadata::new_test. The verification stage (signatures, fees, predicates, service-level TTL timers) is bypassed; Upgrade/Upload txs are not generated; block and preconfirmation environments are always chain-valid; pool panics are judged only by the owning property.",
+    },
+    "C18": {
+        "ready": True,
+        "technique": 'runtime monitoring: seeded hostile operation histories against the real PoolWorker (hook H1), snapshot after every operation, oracle derived from transaction contents',
+        "text": 'Held on the histories produced: every extraction (random gas, size, count, min-price and excluded-contract constraints, ~130k per run) respected all limits, was conflict-free, parent-first, ordered by (tip+1)/max_gas among simultaneously executable txs, and left none of its txs pooled.',
+        "note": "Trusted: hook verif.rs (thin calls into the worker's own methods), harness chain and status ports, TransactionBuilder with into_checked_basic and Metadata::new_test. The verification stage (signatures, fees, predicates, service-level TTL timers) is bypassed; Upgrade/Upload txs are not generated; block and preconfirmation environments are always chain-valid; pool panics are judged only by the owning property.",
+    },
+    "C19": {
+        "ready": True,
+        "technique": 'runtime monitoring: seeded hostile operation histories against the real PoolWorker (hook H1), snapshot after every operation, oracle derived from transaction contents',
+        "text": 'Held on the histories produced: every accepted submission (~210k per run) had a non-duplicate id, inputs that exist (on chain, in the pool or as an unsettled output) with matching fields and not handed out, existing contracts, and on collision a strictly higher tip/gas than each collided subtree, which was evicted; ~115k plain submissions were all accepted. Open known finding: the bounded spent-input cache (S6). A stale-subtree-totals defect found by the thorough tier was repaired by a fix: commit.',
+        "note": "Trusted: hook verif.rs (thin calls into the worker's own methods), harness chain and status ports, TransactionBuilder with into_checked_basic and Metadata::new_test. The verification stage (signatures, fees, predicates, service-level TTL timers) is bypassed; Upgrade/Upload txs are not generated; block and preconfirmation environments are always chain-valid; pool panics are judged only by the owning property.",
+    },
+    "C20": {
+        "ready": True,
+        "technique": 'runtime monitoring: seeded hostile operation histories against the real PoolWorker (hook H1), snapshot after every operation, oracle derived from transaction contents',
+        "text": 'Held on the histories produced: after every block import the included txs left the pool, omitted preconfirmed txs had their dependents evicted and their outputs, contracts and spent marks withdrawn (probed by ~30k follow-up inserts), could be resubmitted, and stale preconfirmations changed nothing. A debug-assertion panic on blocks containing a pooled parent and child was repaired by a fix: commit.',
+        "note": "Trusted: hook verif.rs (thin calls into the worker's own methods), harness chain and status ports, TransactionBuilder with into_checked_basic and Metadata::new_test. The verification stage (signatures, fees, predicates, service-level TTL timers) is bypassed; Upgrade/Upload txs are not generated; block and preconfirmation environments are always chain-valid; pool panics are judged only by the owning property.",
+    },
+    "C21": {
+        "ready": True,
+        "technique": 'runtime monitoring: seeded hostile operation histories against the real PoolWorker (hook H1), snapshot after every operation, oracle derived from transaction contents',
+        "text": 'Held on the histories produced: for every operation the status-sink log contained exactly one squeezed-out report per non-inclusion exit (~130k) and none for handed-out, committed, preconfirmed or still-pooled txs.',
+        "note": "Trusted: hook verif.rs (thin calls into the worker's own methods), harness chain and status ports, TransactionBuilder with into_checked_basic and Metadata::new_test. The verification stage (signatures, fees, predicates, service-level TTL timers) is bypassed; Upgrade/Upload txs are not generated; block and preconfirmation environments are always chain-valid; pool panics are judged only by the owning property.",
+    },
 }
